@@ -40,6 +40,15 @@ TRUSTED += [
     "from a scripted prefix (extremes 0, 1-2^-53, 1/2, 2^-53 at every position) followed by a pseudo-random continuation that raises "
     "after 200000 draws",
 ]
+TRUSTED += [
+    "magnitudes: Python-int inputs / bounds up to 2^100 (mixed with +-inf, numpy-scalar typed, double-typed bounds for GeometricFolded) are "
+    "checked on the code only, with exact int / Fraction comparisons (range and zero-noise identity); the model comparison (K) stays "
+    "below 2^40 because the driver's carrier is the double. For the double-valued mechanisms int domains are generated at least 64 "
+    "double-spacings wide and below 2^62 (a narrower int domain contains no double; Python ints beyond int64 are not a double-valued "
+    "mechanism's domain)",
+    "Bingham is run on the caller's array as it comes: int64 / int32 / uint8 / float32, C / Fortran order, non-contiguous views (a "
+    "float32 matrix with no noise returns eigh's float32 eigenvector: unit norm checked to 1e-6 there, 1e-9 otherwise)",
+]
 UNPROVED = [
     "double rounding: that the float fold (modulo step + reflections on doubles) stays in [lower, upper] and stops is "
     "observed on every run, the theorems fold_in_bounds / fold_terminates are over R; truncate, the rejection test, "
@@ -147,6 +156,8 @@ def _num(x):
 
 def build(mech, cfg, rng):
     cls = getattr(MECH, mech)
+    if cfg.get("np_types"):
+        cfg = dict(cfg, lower=typed_num(cfg["lower"], cfg["np_types"].get("lower")), upper=typed_num(cfg["upper"], cfg["np_types"].get("upper")))
     if mech in ("LaplaceTruncated", "LaplaceFolded", "LaplaceBoundedDomain"):
         return cls(epsilon=cfg["eps"], delta=cfg.get("delta", 0.0), sensitivity=cfg["sens"], lower=cfg["lower"],
                    upper=cfg["upper"], random_state=rng)
@@ -154,6 +165,43 @@ def build(mech, cfg, rng):
 
 
 # ------------------------------------------------------------------------------------------- references
+def pynum(x):
+    """numpy scalars as the Python number with the same value (float64 / integers convert exactly)"""
+    if isinstance(x, np.floating):
+        return float(x)
+    if isinstance(x, np.integer):
+        return int(x)
+    return x
+
+
+def exact_le(a, b):
+    """a <= b decided EXACTLY (numpy compares a float with a Python int after rounding the int to a double)"""
+    a, b = pynum(a), pynum(b)
+    if any(isinstance(x, float) and x != x for x in (a, b)):
+        return False
+    ia = isinstance(a, float) and math.isinf(a)
+    ib = isinstance(b, float) and math.isinf(b)
+    if ia or ib:
+        if ia and ib:
+            return a <= b
+        return a < 0 if ia else b > 0
+    return Fraction(a) <= Fraction(b)
+
+
+def exact_abs_diff(a, b):
+    a, b = pynum(a), pynum(b)
+    if any(isinstance(x, float) and not math.isfinite(x) for x in (a, b)):
+        return Fraction(0) if a == b else Fraction(10) ** 400
+    return abs(Fraction(a) - Fraction(b))
+
+
+NP_TYPES = {"int64": np.int64, "int32": np.int32, "float32": np.float32, "float64": np.float64}
+
+
+def typed_num(x, t):
+    return NP_TYPES[t](x) if t else x
+
+
 def clamp(v, lo, hi):
     return min(max(v, lo), hi)
 
@@ -190,7 +238,30 @@ HANGS = {}
 MAX_HANGS = 3      # after this many observed hangs of one mechanism its remaining cases are skipped (each costs TIMEOUT)
 
 
+def unrepresentable_int_bound_region(mech, cfg, out):
+    """known region: a double-valued mechanism with a Python-int bound that is not exactly a double, and an output that misses the
+    domain by at most one spacing of that bound (numpy compares / adds after rounding the int to a double)"""
+    if mech not in REAL_MECHS or out is None or out != out:
+        return False
+    for b in (cfg["lower"], cfg["upper"]):
+        if isinstance(b, int) and not isinstance(b, bool) and int(float(b)) != b:
+            if exact_abs_diff(out, b) <= Fraction(float(np.spacing(float(abs(b))))):
+                return True
+    return False
+
+
 def direct_one(mech, cfg, value, rngspec):
+    v, out = _direct_one(mech, cfg, value, rngspec)
+    if v and v[0].split(":")[-1] in ("out-of-range", "above-upper", "below-lower", "degenerate") and \
+            unrepresentable_int_bound_region(mech, cfg, out):
+        return ("C12:laplace-family:int-bound-not-a-double:off-by-rounding", v[1]), out
+    if v and mech == "GeometricFolded" and v[0].endswith(":raises") and "rint" in v[1] and \
+            any(isinstance(b, int) and abs(2 * b) >= 2 ** 63 for b in (cfg["lower"], cfg["upper"])):
+        return ("C12:geometric-folded:bounds-beyond-int64:raises", v[1]), out
+    return v, out
+
+
+def _direct_one(mech, cfg, value, rngspec):
     """the property on the real code for one call; returns (signature, what) or None, plus the output"""
     lo, hi = cfg["lower"], cfg["upper"]
     holder = {}
@@ -200,9 +271,9 @@ def direct_one(mech, cfg, value, rngspec):
     def call():
         m = build(mech, cfg, make_rng(rngspec))
         holder["m"] = m
-        return m.randomise(value)
+        return m.randomise(typed_num(value, (cfg.get("np_types") or {}).get("value")))
     kind, out = run_timed(call)
-    desc = f"{mech}(epsilon={cfg['eps']!r}, delta={cfg.get('delta', 0.0)!r}, sensitivity={cfg['sens']!r}, lower={lo!r}, " \
+    desc = (f"[numpy-scalar arguments {cfg['np_types']}] " if cfg.get("np_types") else "") + f"{mech}(epsilon={cfg['eps']!r}, delta={cfg.get('delta', 0.0)!r}, sensitivity={cfg['sens']!r}, lower={lo!r}, " \
            f"upper={hi!r}, rng={rngspec if 'seed' in rngspec else 'scripted'}).randomise({value!r})"
     p = sig_prefix(mech)
     if kind == "exhausted":
@@ -234,26 +305,37 @@ def direct_one(mech, cfg, value, rngspec):
     else:
         if not isinstance(out, numbers.Real):
             return (f"C12:{p}:type", f"{desc} returned {out!r} of type {type(out).__name__}"), out
+        if out != out and mech == "Snapping" and hi - lo >= 1e307:
+            return ("C12:Snapping:huge-finite-width:nan", f"{desc} returned NaN (effective epsilon 0 for a domain width >= 1e307)"), out
         if out != out:
             return (f"C12:{p}:nan", f"{desc} returned NaN"), out
-    if mech == "Snapping" and cfg["sens"] == 0 and out != clamp(value, lo, hi):
+    big = cfg.get("dk") == "magnitude"
+    if mech == "Snapping" and cfg["sens"] == 0 and exact_abs_diff(out, clamp(value, lo, hi)) != 0 and \
+            not (big and float(out) == float(clamp(value, lo, hi))):
         return ("C12:snapping:sens0", f"{desc} returned {out!r}, expected the input truncated to the bounds {clamp(value, lo, hi)!r}"), out
-    if not (lo <= out <= hi):
+    if not (exact_le(lo, out) and exact_le(out, hi)):
         if mech == "Snapping":
-            return ("C12:snapping:above-upper" if out > hi else "C12:snapping:below-lower",
+            return ("C12:snapping:above-upper" if not exact_le(out, hi) else "C12:snapping:below-lower",
                     f"{desc} returned {out!r} outside [{lo!r}, {hi!r}]"), out
-        return (f"C12:{p}:out-of-range", f"{desc} returned {out!r} outside [{lo!r}, {hi!r}]"), out
+        return (f"C12:{p}:out-of-range", f"{desc} returned {out!r} outside [{lo!r}, {hi!r}] (exact comparison)"), out
     # degenerate parameters: the input itself mapped into the domain
     if cfg["sens"] == 0 or cfg["eps"] == INF:
+        value_, lo_, hi_ = pynum(value), pynum(lo), pynum(hi)
+        float_typed = any(isinstance(x, float) and math.isfinite(x) for x in (lo_, hi_))
         if mech in ("LaplaceFolded", "GeometricFolded"):
-            exp = ref_fold(value, lo, hi)
-            tol = 0 if mech == "GeometricFolded" else 8 * spacing(value, lo, hi)
+            exp = ref_fold(value_, lo_, hi_)
+            # integer mechanism with integer (or infinite) bounds: EXACT; bounds given as doubles: double arithmetic
+            tol = (8 * spacing(value_, lo_, hi_) if float_typed and big else 0) if mech == "GeometricFolded" else 8 * spacing(value_, lo_, hi_)
         else:
-            exp = clamp(value, lo, hi)
+            exp = clamp(value_, lo_, hi_)
             tol = 0
             if mech == "Snapping" and cfg["sens"] != 0:
                 tol = 1e-9 * (abs(lo) + abs(hi) + 1e-300)      # scaled to sensitivity 1 and back: rounding only
-        if not abs(out - exp) <= tol:
+        if mech not in INT_MECHS and big and isinstance(exp, int) and tol == 0:
+            ok_ = float(out) == float(exp)           # a float mechanism returns the double nearest to the exact image
+        else:
+            ok_ = exact_abs_diff(out, exp) <= Fraction(tol)
+        if not ok_:
             if mech == "Snapping" and cfg["sens"] == 0:
                 return ("C12:snapping:sens0", f"{desc} returned {out!r}, expected the input truncated to the bounds {exp!r}"), out
             return (f"C12:{p}:degenerate", f"{desc} returned {out!r}, expected the input mapped into the domain {exp!r}"), out
@@ -836,10 +918,82 @@ def gen_landing(r):
     return "LaplaceBoundedDomain", cfg, value, {"uniforms": us}
 
 
+def gen_magnitude(r):
+    """integer inputs and bounds at and beyond 2^53, 2^63, 2^70 as Python ints (mixed with +-inf and with double-typed bounds,
+    sometimes as numpy scalars) for the geometric and the Laplace family: range and zero-noise identity are checked EXACTLY"""
+    mech = r.choice(["GeometricTruncated", "GeometricTruncated", "GeometricFolded", "GeometricFolded", "LaplaceTruncated", "LaplaceFolded",
+                     "LaplaceBoundedDomain", "Snapping"])
+    geo = mech.startswith("Geometric")
+    Bm = r.choice([2 ** 53, 2 ** 53, 2 ** 62, 2 ** 63, 2 ** 64, 2 ** 70, 2 ** 100]) if geo else r.choice([2 ** 53, 2 ** 53, 2 ** 55, 2 ** 60])
+    sgn = r.choice([1, 1, -1])
+    lo = sgn * Bm + r.choice([1, 3, -1, 0, r.randint(-9, 9)])
+    if geo:
+        width = r.choice([0, 1, 10, 1001, 2 ** 53 + 7, Bm + 5, r.randint(2, 10 ** 6)])
+    else:
+        # a double-valued mechanism needs doubles inside its domain: at least 64 spacings wide, everything below 2^62
+        sp = int(np.spacing(float(2 * Bm)))
+        width = r.choice([64 * sp + 1, 1000 * sp + 3, Bm - 1, Bm + 5, 2 ** 53 - 1])
+    hi = lo + width
+    m = r.u01()
+    if mech != "Snapping":
+        if m < 0.15:
+            hi = INF
+        elif m < 0.3:
+            lo, hi = -INF, hi
+        elif m < 0.35:
+            lo, hi = -INF, INF
+    np_types = None
+    if m >= 0.35 and mech == "GeometricFolded" and r.chance(0.2):
+        lo, hi = float(lo), float(hi)               # the caller's bounds are doubles
+    if mech == "GeometricFolded" and r.chance(0.5) and all(isinstance(x, int) and abs(x) < 2 ** 61 for x in (lo, hi)):
+        pass
+    anchor_lo = lo if lo != -INF else (hi if hi != INF else sgn * Bm)
+    anchor_hi = hi if hi != INF else anchor_lo
+    value = int(r.choice([anchor_lo, anchor_hi, anchor_lo + r.randint(-30, 30), anchor_hi + r.randint(-30, 30), anchor_lo - Bm - 1,
+                          anchor_hi + (2 ** 70 if geo else 2 ** 58) + 1, anchor_hi + 2 * width + 3, 2 ** 53 + 3, r.randint(-5, 5)]))
+    if not mech.startswith("Geometric") and r.chance(0.4):
+        value = float(value)
+    degenerate = r.chance(0.6)
+    cfg = {"eps": INF if degenerate and r.chance(0.5) else r.choice([1.0, 0.1, 5.0]), "sens": (0 if mech.startswith("Geometric") else 0.0)
+           if degenerate and r.chance(0.6) else (1 if mech.startswith("Geometric") else r.choice([1.0, float(Bm) / 2 ** 20])),
+           "lower": lo, "upper": hi, "dk": "magnitude"}
+    if not mech.startswith("Geometric"):
+        cfg["delta"] = 0.0
+    if r.chance(0.12) and all(isinstance(x, int) and abs(x) < 2 ** 62 for x in (lo, hi, value)):
+        cfg["np_types"] = {"lower": "int64", "upper": "int64", "value": "int64" if isinstance(value, int) else None}
+    return mech, cfg, value, {"seed": r.randint(0, 2 ** 31 - 2)}
+
+
+def gen_snap_wide(r):
+    w = r.choice([1e300, 1e306, 9e306, 1e307, 4e307, 8e307, 1.7e308 / 2])
+    lo, hi = r.choice([(-w, w), (0.0, 2 * w if 2 * w < 1.7e308 else 1.7e308), (-w, 0.0)])
+    return "Snapping", {"eps": r.choice([1.0, 0.1, 10.0]), "sens": r.choice([1.0, 1e6, 1e300]), "lower": lo, "upper": hi, "dk": "astronomic"}, \
+        r.choice([0.5, lo, hi, 0.0, lo / 2]), {"seed": r.randint(0, 2 ** 31 - 2)}
+
+
+FIXED_MAGNITUDE = [
+    ("GeometricFolded", {"eps": 1.0, "sens": 1, "lower": 2 ** 63 + 1, "upper": 2 ** 63 + 9, "dk": "magnitude"}, 2 ** 63 + 5, {"seed": 0}),
+    ("LaplaceTruncated", {"eps": 1.0, "delta": 0.0, "sens": 0.0, "lower": 2 ** 53, "upper": 2 ** 54 - 1, "dk": "magnitude"}, float(2 ** 54), {"seed": 0}),
+    ("GeometricTruncated", {"eps": 1.0, "sens": 0, "lower": 2 ** 53 + 1, "upper": INF, "dk": "magnitude"}, 2 ** 53 + 1, {"seed": 0}),
+    ("GeometricTruncated", {"eps": INF, "sens": 1, "lower": -INF, "upper": 2 ** 60, "dk": "magnitude"}, 2 ** 53 + 3, {"seed": 0}),
+    ("LaplaceTruncated", {"eps": 1.0, "delta": 0.0, "sens": 1.0, "lower": 2 ** 53 + 1, "upper": 2 ** 54, "dk": "magnitude"}, 0.0, {"seed": 0}),
+    ("GeometricFolded", {"eps": 1.0, "sens": 0, "lower": 2 ** 60, "upper": 2 ** 60 + 10, "dk": "magnitude"}, 2 ** 70 + 1, {"seed": 0}),
+    ("GeometricTruncated", {"eps": 1.0, "sens": 1, "lower": 2 ** 63 + 1, "upper": 2 ** 63 + 9, "dk": "magnitude"}, 2 ** 70, {"seed": 0}),
+    ("Snapping", {"eps": 1.0, "sens": 1.0, "lower": -8e307, "upper": 8e307, "dk": "astronomic"}, 0.5, {"seed": 0}),
+    ("Snapping", {"eps": 1.0, "sens": 1.0, "lower": -1e307 / 4, "upper": 1e307 / 4, "dk": "astronomic"}, 0.5, {"seed": 0}),
+]
+
+
 def s_bounded(ctx):
     r = ctx.fork("direct")
     n = ctx.budget(1200, 50000)
     cases = [(m, dict(c, dk="fixed"), v, s) for m, c, v, s in FIXED_DIRECT + FIXED_DIRECT_LANDING]
+    cases += list(FIXED_MAGNITUDE)
+    rm = ctx.fork("magnitude")
+    for _ in range(ctx.budget(1200, 50000) // 2):
+        cases.append(gen_magnitude(rm))
+    for _ in range(ctx.budget(1200, 50000) // 20):
+        cases.append(gen_snap_wide(rm))
     rl = ctx.fork("landing")
     for _ in range(n // 2):
         c = gen_landing(rl)
@@ -930,9 +1084,16 @@ def sel_case(r):
         return {"mech": "Binary", "eps": r.choice([INF, 1.0, r.loguniform(1e-4, 50), 700.0, 1000.0]), "value": r.choice(["yes", "no"]), "seed": seed,
                 "u": r.choice([None, 0.0, ONE_M, 0.5])}
     d = r.randint(1, 5)
-    A = [[r.normal() for _ in range(d)] for _ in range(d + 2)]
-    return {"mech": "Bingham", "eps": r.choice([INF, 1.0, r.loguniform(1e-2, 50), 10.0]), "sens": r.choice([1.0, 0.0, r.loguniform(0.1, 10)]),
-            "A": A, "seed": seed}
+    case = {"mech": "Bingham", "eps": r.choice([INF, 1.0, r.loguniform(1e-2, 50), 10.0]), "sens": r.choice([1.0, 0.0, r.loguniform(0.1, 10)]),
+            "seed": seed}
+    if r.chance(0.4):
+        # the caller's array as it comes: X.T @ X of integer data, float32, Fortran order, a non-contiguous view
+        case["dtype"] = r.choice(["int64", "int32", "uint8", "float32", "int64"])
+        case["A"] = [[float(r.randint(0, 3)) for _ in range(d)] for _ in range(d + 2)]
+    else:
+        case["A"] = [[r.normal() for _ in range(d)] for _ in range(d + 2)]
+    case["layout"] = r.choice(["C", "C", "F", "view"])
+    return case
 
 
 EXTREME = [0.0, ONE_M, 0.5, 2.0 ** -53, 1.0 / 3]
@@ -1129,6 +1290,15 @@ def _sel_rest(case, name, eps, rng, desc):
         else:
             A = np.array(case["A"])
             S = A.T @ A
+        if case.get("dtype"):
+            S = S.astype(case["dtype"])            # exact: small non-negative integers
+        if case.get("layout") == "F":
+            S = np.asfortranarray(S)
+        elif case.get("layout") == "view":
+            big = np.zeros((2 * S.shape[0], 2 * S.shape[1]), dtype=S.dtype)
+            big[::2, ::2] = S
+            S = big[::2, ::2]
+        S0 = S.copy()
         def call():
             return MECH.Bingham(epsilon=eps, sensitivity=case["sens"], random_state=int(case["seed"])).randomise(S)
         huge = math.isfinite(eps) and eps >= 1e19
@@ -1142,15 +1312,19 @@ def _sel_rest(case, name, eps, rng, desc):
                 return ("C12:Bingham:huge-finite-epsilon:" + ("hang" if kind == "hang" else "raises"),
                         f"{desc}: " + ("did not return within 3 s" if kind == "hang" else f"raised {out!r}"))
             return ("C12:Bingham:" + ("hang" if kind == "hang" else "raises"), f"{desc}: {kind} {out!r}")
+        if not np.array_equal(S, S0):
+            return ("C12:Bingham:modifies-input", f"{desc}: the caller's matrix was modified")
         v = np.asarray(out, dtype=float).ravel()
-        if v.shape[0] != S.shape[0] or not abs(float(np.linalg.norm(v)) - 1.0) <= 1e-9:
+        # a float32 matrix with no noise returns eigh's float32 eigenvector: unit to single precision
+        ntol = 1e-6 if case.get("dtype") == "float32" else 1e-9
+        if v.shape[0] != S.shape[0] or not abs(float(np.linalg.norm(v)) - 1.0) <= ntol:
             return ("C12:Bingham:not-unit", f"{desc} returned a vector of norm {float(np.linalg.norm(v))!r} / shape {np.shape(out)}")
         if eps == INF or case["sens"] == 0:
-            w, V = np.linalg.eigh(S)
+            w, V = np.linalg.eigh(np.asarray(S, dtype=float))
             if len(w) > 1 and not (np.sort(w)[-1] - np.sort(w)[-2]) > 1e-6 * max(1.0, abs(w).max()):
                 return None                  # (nearly) degenerate top eigenvalue: the top eigenvector is not unique
             top = V[:, w.argmax()]
-            if S.shape[0] > 1 and not abs(abs(float(top @ v)) - 1.0) <= 1e-9:
+            if S.shape[0] > 1 and not abs(abs(float(top @ v)) - 1.0) <= max(ntol, 1e-9):
                 return ("C12:Bingham:degenerate", f"{desc} with no noise did not return the top eigenvector")
         return None
     raise KeyError(name)
@@ -1185,6 +1359,8 @@ FIXED_SEL += [
     {"mech": "Bingham", "eps": 1e100, "sens": 1.0, "S": [[2.0, 0.5], [0.5, 1.0]], "seed": 1},
     {"mech": "Bingham", "eps": 1.7e308, "sens": 1.0, "S": [[2.0, 0.5], [0.5, 1.0]], "seed": 1},
     {"mech": "Bingham", "eps": 1e18, "sens": 1.0, "S": [[2.0, 0.5], [0.5, 1.0]], "seed": 1},
+    {"mech": "Bingham", "eps": 1.0, "sens": 1.0, "S": [[2, 1], [1, 3]], "dtype": "int64", "seed": 0},
+    {"mech": "Bingham", "eps": 1.0, "sens": 1.0, "S": [[2, 1], [1, 3]], "dtype": "uint8", "layout": "F", "seed": 0},
     {"mech": "Binary", "eps": 1000.0, "value": "no", "seed": 0, "u": None},
     {"mech": "Binary", "eps": 1e300, "value": "yes", "seed": 0, "u": 0.5},
 ]
@@ -1311,6 +1487,40 @@ WHAT = {
 }
 
 
+WHAT.update({
+    "C12:Snapping:huge-finite-width:nan":
+        "Snapping(epsilon=1, sensitivity=1, lower=-8e307, upper=8e307, random_state=0).randomise(0.5) returns nan (also (-4e307, 4e307) and "
+        "(0, 1.7e308); (-1e307, 1e307) returns finite values): effective_epsilon() is 0 for such a bound, scale = 1/0 and `value % lambda_` "
+        "is invalid",
+    "C12:geometric-folded:bounds-beyond-int64:raises":
+        "GeometricFolded(epsilon=1, lower=2**63+1, upper=2**63+9, random_state=0).randomise(2**63+5) raises TypeError (np.round / np.isclose "
+        "on a Python int beyond int64 in _check_bounds: 'int has no callable rint method') for integer bounds with |2*bound| >= 2**63; "
+        "GeometricTruncated accepts the same bounds",
+    "C12:laplace-family:int-bound-not-a-double:off-by-rounding":
+        "LaplaceTruncated(epsilon=1, sensitivity=0, lower=2**53, upper=2**54-1).randomise(float(2**54)) returns 18014398509481984.0 > upper: "
+        "`value > self.upper` compares a numpy double with a Python int after rounding the int to a double; likewise "
+        "LaplaceBoundedDomain(sensitivity=0, lower=2**53+1, upper=2**54+6).randomise(0) returns 9007199254740992.0 < lower (`int + "
+        "np.float64(0)` rounds) and LaplaceFolded / Snapping: a double-valued mechanism with a Python-int bound that is not exactly a "
+        "double can miss the domain by one rounding of that bound (never by more than one spacing)",
+})
+W_DIRECT = {
+    "C12:Snapping:huge-finite-width:nan":
+        ("Snapping", {"eps": 1.0, "sens": 1.0, "lower": -8e307, "upper": 8e307, "dk": "astronomic"}, 0.5, {"seed": 0}),
+    "C12:geometric-folded:bounds-beyond-int64:raises":
+        ("GeometricFolded", {"eps": 1.0, "sens": 1, "lower": 2 ** 63 + 1, "upper": 2 ** 63 + 9, "dk": "magnitude"}, 2 ** 63 + 5, {"seed": 0}),
+    "C12:laplace-family:int-bound-not-a-double:off-by-rounding":
+        ("LaplaceTruncated", {"eps": 1.0, "delta": 0.0, "sens": 0.0, "lower": 2 ** 53, "upper": 2 ** 54 - 1, "dk": "magnitude"}, float(2 ** 54), {"seed": 0}),
+}
+
+
+def _witness_direct(sig):
+    def w(ctx):
+        HANGS.clear()
+        v, _ = direct_one(*W_DIRECT[sig])
+        return (v is not None and v[0] == sig), WHAT[sig]
+    return w
+
+
 def _witness(case, sig):
     def w(ctx):
         v = sel_direct(case)
@@ -1324,3 +1534,5 @@ WITNESSES = {
     "C12:Bingham:huge-finite-epsilon:hang": _witness(W_BING, "C12:Bingham:huge-finite-epsilon:hang"),
     "C12:Bingham:huge-finite-epsilon:raises": _witness(W_BING2, "C12:Bingham:huge-finite-epsilon:raises"),
 }
+for _sig in W_DIRECT:
+    WITNESSES[_sig] = _witness_direct(_sig)
